@@ -111,7 +111,12 @@ var c03Faults = &vlib.Check{
 		if f == nil {
 			return nil
 		}
-		rd := mdl.Render(ft, mdl.RandomLayout(r))
+		lay := mdl.RandomLayout(r)
+		if f.AtEndOfFile {
+			lay.NoFinalEOL = true
+			lay.PTrail, lay.PEolComment = 0, 0
+		}
+		rd := mdl.Render(ft, lay)
 		e := c03Expect{Class: f.Class, Msg: f.Msg, Place: place}
 		add := func(id int, next bool) {
 			if p, ok := rd.Pos[id]; ok {
